@@ -333,18 +333,20 @@ def _extract_attributes(element):
             if subel.prefix is not None
             else sqname.localname,
         )
+        # an element without content carries the empty string
+        text = subel.text if subel.text is not None else ""
 
         for key, value in subel.attrib.items():
             if key == _ns_xsi("type"):
                 datatype = xml_qname_to_QualifiedName(subel, value)
                 if datatype == XSD_QNAME:
-                    _v = xml_qname_to_QualifiedName(subel, subel.text)
+                    _v = xml_qname_to_QualifiedName(subel, text)
                 else:
-                    _v = prov.model.Literal(subel.text, datatype)
+                    _v = prov.model.Literal(text, datatype)
             elif key == _ns_prov("ref"):
                 _v = xml_qname_to_QualifiedName(subel, value)
             elif key == _ns_xml("lang"):
-                _v = prov.model.Literal(subel.text, langtag=value)
+                _v = prov.model.Literal(text, langtag=value)
             else:
                 warnings.warn(
                     "The element '%s' contains an attribute %s='%s' "
@@ -355,7 +357,7 @@ def _extract_attributes(element):
                 )
 
         if not subel.attrib:
-            _v = subel.text
+            _v = text
 
         attributes.append((_t, _v))
 
